@@ -176,6 +176,17 @@ func (w *Worktree) PullContext(ctx context.Context, o *PullOptions) error {
 		return err
 	}
 
+	// The merge-mode reset below refuses when the worktree has unstaged
+	// changes; find that out before the branch is moved, so that a refused
+	// pull leaves the branch where it was.
+	if cfg, err := w.r.Config(); err != nil {
+		return err
+	} else if unstaged, err := w.containsUnstagedChanges(cfg); err != nil {
+		return err
+	} else if unstaged {
+		return ErrUnstagedChanges
+	}
+
 	if err := w.updateHEAD(ref.Hash()); err != nil {
 		return err
 	}
